@@ -389,6 +389,7 @@ func runC19(c *Ctx) {
 	_ = types.Typ
 	ruleMutatorAtomic(c, "C19.7")
 	c18Locks(c, "C19.8")
+	ruleErrorsNotDropped(c, "C19.9", "storage.(*BTree).insert", "storage.(*RelationService).Insert", "engine.EvaluateInsert")
 }
 
 func exprKeyOfBlock(b *ast.BlockStmt) string {
@@ -496,6 +497,109 @@ func runC20(c *Ctx) {
 	}
 	c.Check(has(`'\''`) && has(`'"'`) && has(`';'`), "C20.1", f.Name+"|characters", f.Decl.Pos(), "split consults ', \" and ;", "the split does not consult both quote characters and the semicolon")
 	c.Check(has(`'\\'`), "C20.1", f.Name+"|escape", f.Decl.Pos(), "a backslash inside a literal skips the next character, as the SQL scanner does", "backslash escapes inside literals are not honoured: 'it\\'s; fine' is cut at the semicolon")
+	// the escape is CONSUMED together with the character it escapes (the SQL scanner's scanString does
+	// the same: `if ch == '\\' { ch = s.scanEscape(quote) }`): a look-behind test cannot tell an escaped
+	// quote from a quote that follows an escaped backslash
+	if has(`'\\'`) {
+		consumes, lookBehind := false, token.NoPos
+		var loopVar types.Object
+		inspectBody(f.Decl.Body, func(x ast.Node) bool {
+			if fs, ok := x.(*ast.ForStmt); ok && loopVar == nil {
+				if as, ok := fs.Init.(*ast.AssignStmt); ok && len(as.Lhs) == 1 {
+					if id, ok := as.Lhs[0].(*ast.Ident); ok {
+						loopVar = f.ObjOf(id)
+					}
+				}
+			}
+			if rs, ok := x.(*ast.RangeStmt); ok && loopVar == nil {
+				if id, ok := rs.Key.(*ast.Ident); ok {
+					loopVar = f.ObjOf(id)
+				}
+			}
+			return true
+		})
+		isBackslash := func(e ast.Expr) bool {
+			bl, ok := ast.Unparen(e).(*ast.BasicLit)
+			return ok && bl.Kind == token.CHAR && bl.Value == `'\\'`
+		}
+		mentionsOffset := func(e ast.Expr) bool {
+			off := false
+			ast.Inspect(e, func(y ast.Node) bool {
+				if ix, ok := y.(*ast.IndexExpr); ok {
+					if be, ok := ast.Unparen(ix.Index).(*ast.BinaryExpr); ok && be.Op == token.SUB {
+						off = true
+					}
+				}
+				return true
+			})
+			return off
+		}
+		ast.Inspect(f.Decl.Body, func(x ast.Node) bool {
+			switch y := x.(type) {
+			case *ast.BinaryExpr:
+				if y.Op == token.EQL || y.Op == token.NEQ {
+					other := y.X
+					if isBackslash(y.X) {
+						other = y.Y
+					} else if !isBackslash(y.Y) {
+						return true
+					}
+					if mentionsOffset(other) {
+						lookBehind = y.Pos()
+					}
+				}
+			case *ast.IfStmt:
+				be, ok := ast.Unparen(y.Cond).(*ast.BinaryExpr)
+				if !ok || be.Op != token.EQL || !(isBackslash(be.X) || isBackslash(be.Y)) {
+					return true
+				}
+				ast.Inspect(y.Body, func(z ast.Node) bool {
+					switch w := z.(type) {
+					case *ast.IncDecStmt:
+						if id, ok := w.X.(*ast.Ident); ok && f.ObjOf(id) == loopVar && w.Tok == token.INC {
+							consumes = true
+						}
+					case *ast.AssignStmt:
+						if id, ok := w.Lhs[0].(*ast.Ident); ok && (f.ObjOf(id) == loopVar || isBoolVar(f, id)) {
+							consumes = true // cur += 1, or an `escaped` state flag
+						}
+					}
+					return true
+				})
+			case *ast.CaseClause:
+				for _, e := range y.List {
+					be, ok := ast.Unparen(e).(*ast.BinaryExpr)
+					if ok && be.Op == token.EQL && (isBackslash(be.X) || isBackslash(be.Y)) {
+						for _, st := range y.Body {
+							ast.Inspect(st, func(z ast.Node) bool {
+								if w, ok := z.(*ast.IncDecStmt); ok {
+									if id, ok := w.X.(*ast.Ident); ok && f.ObjOf(id) == loopVar {
+										consumes = true
+									}
+								}
+								if w, ok := z.(*ast.AssignStmt); ok {
+									if id, ok := w.Lhs[0].(*ast.Ident); ok && (f.ObjOf(id) == loopVar || isBoolVar(f, id)) {
+										consumes = true
+									}
+								}
+								return true
+							})
+						}
+					}
+				}
+			}
+			return true
+		})
+		key := f.Name + "|escape-consumes-next"
+		switch {
+		case lookBehind.IsValid():
+			c.Fail("C20.1", key, lookBehind, "the split decides whether a quote is escaped by looking at the character BEFORE it: for a literal that ends in an escaped backslash ('C:\\\\') the closing quote is taken for an escaped one, the literal stays open and the terminating ';' is swallowed — the SQL scanner consumes escape pairs left to right")
+		case consumes:
+			c.OK("C20.1", key, f.Decl.Pos(), 2, "a backslash and the character it escapes are consumed as a pair, as in the SQL scanner's scanString")
+		default:
+			c.Undecided("C20.1", key, "the backslash is consulted but neither consumed with its successor nor used as a look-behind: unknown escape idiom")
+		}
+	}
 	// the cut includes the terminator and starts where the previous one ended
 	okCut := false
 	ast.Inspect(f.Decl.Body, func(x ast.Node) bool {
@@ -568,6 +672,71 @@ func runC20(c *Ctx) {
 					c.Fail("C20.2", key, enter.Pos(), "the statements handed on are not the split's result")
 				default:
 					c.OK("C20.2", key, enter.Pos(), 3, "submit iff only blanks follow the split's rest; the split's statements are handed on")
+				}
+				// the split's statements reach the caller unmodified: no element store, no reassignment
+				if stmtsObj != nil {
+					rewritten := token.NoPos
+					inspectBody(arm, func(y ast.Node) bool {
+						as, ok := y.(*ast.AssignStmt)
+						if !ok {
+							return true
+						}
+						for li, l := range as.Lhs {
+							var base ast.Expr = ast.Unparen(l)
+							if ix, ok := base.(*ast.IndexExpr); ok {
+								base = ast.Unparen(ix.X)
+							}
+							id, ok := base.(*ast.Ident)
+							if !ok {
+								continue
+							}
+							o := hk.ObjOf(id)
+							isLine := false
+							if ri := resultIdent(hk, 0); ri != nil && hk.ObjOf(ri) == o {
+								isLine = true
+							}
+							if o != stmtsObj && !isLine {
+								continue
+							}
+							if _, isIdx := ast.Unparen(l).(*ast.IndexExpr); isIdx {
+								rewritten = as.Pos()
+								continue
+							}
+							// whole-variable assignment: allowed from the split itself, or line = append(line, stmts...)
+							if li < len(as.Rhs) || len(as.Rhs) == 1 {
+								rhs := as.Rhs[0]
+								if len(as.Rhs) == len(as.Lhs) {
+									rhs = as.Rhs[li]
+								}
+								if call, ok := ast.Unparen(rhs).(*ast.CallExpr); ok {
+									if hk.CallIs(call, "console.splitStatements") {
+										continue
+									}
+									if fid, ok := call.Fun.(*ast.Ident); ok && fid.Name == "append" && isLine {
+										onlyStmts := len(call.Args) == 2 && call.Ellipsis.IsValid()
+										if onlyStmts {
+											if aid, ok := ast.Unparen(call.Args[1]).(*ast.Ident); !ok {
+												onlyStmts = false
+											} else if o2 := hk.ObjOf(aid); o2 != stmtsObj {
+												// an alias `out := stmts` is still the split's result
+												rhs2, _, ok2 := hk.definedBy(arm, o2)
+												rid, isID := rhs2.(*ast.Ident)
+												if !ok2 || !isID || hk.ObjOf(rid) != stmtsObj {
+													onlyStmts = false
+												}
+											}
+										}
+										if onlyStmts {
+											continue
+										}
+									}
+								}
+								rewritten = as.Pos()
+							}
+						}
+						return true
+					})
+					c.Check(!rewritten.IsValid(), "C20.2", hk.Name+"|statements-unmodified", enter.Pos(), "the split's statements are handed on as they are", "the Enter arm rewrites the text of the statements between the split and the caller (a whitespace tidy-up is not quote-aware: blanks inside string literals are changed)")
 				}
 				// buffer cleared only inside the submit branch
 				cleared := true
